@@ -16,7 +16,7 @@ RULE = (
     'sequential: generated sequences over [k]=v, [k], del, get, pop(+default), popitem(last), peekitem, setdefault, '
     'update (mapping/pairs/kwargs), keys/values/items views, ==/!= against OrderedDict (ordered), dict (unordered) and '
     'another Index, iter, reversed, clear, len, reopen, unpickle; keys str/int/float (1 and 1.0)/bytes/tuples, values '
-    'inline and file-backed; Index(...), FanoutCache.index, DjangoCache.index; oracle = collections.OrderedDict step by '
+    'inline and file-backed; Index(...), FanoutCache.index, DjangoCache.index, each with or without the underlying cache reset to a size_limit of 1 byte; oracle = collections.OrderedDict step by '
     'step (results, exception types, list(items())). concurrent: 2-3 clients doing lookups, replacements, setdefault '
     'and popitem on shared keys under generated statement-level schedules; oracle = linearizability with NO tolerated '
     'miss. non-trivial = >= 3 method kinds with a re-assignment of an existing key or a persistence event; concurrent: '
